@@ -48,7 +48,12 @@ type Finding struct {
 	Sample   any          `json:"materialised,omitempty"`
 	// Sequence: the violation needs process state left behind by earlier runs; replay
 	// executes these runs in order in one fresh process, the last one must violate.
-	Sequence    *SeqSpec `json:"sequence,omitempty"`
+	Sequence *SeqSpec `json:"sequence,omitempty"`
+	// OrderA/OrderB: two index sequences ending in the same run; executed in two fresh
+	// processes the final run yields different observable results (class run_order_dependence)
+	OrderA      []uint64 `json:"order_a,omitempty"`
+	OrderB      []uint64 `json:"order_b,omitempty"`
+	OrderBase   uint64   `json:"order_base_seed,omitempty"`
 	SliceFrom   uint64   `json:"slice_from"`
 	SliceStride uint64   `json:"slice_stride"`
 	Path        string   `json:"-"`
@@ -62,23 +67,24 @@ type SeqSpec struct {
 }
 
 type WorkerReport struct {
-	Runs          int            `json:"runs"`
-	Evals         int            `json:"evals"`
-	Discarded     int            `json:"discarded"`
-	Steps         int            `json:"steps"`
-	Execs         int            `json:"execs"`
-	Hashes        []uint64       `json:"hashes"`
-	HashesDropped int            `json:"hashes_dropped"`
-	ProgHashes    []uint64       `json:"prog_hashes"`
-	Faults        map[string]int `json:"faults"`
-	Probes        map[string]int `json:"probes"`
-	Porcupine     [3]int         `json:"porcupine"`
-	RaceRuns      int            `json:"race_runs"`
-	RaceReports   int            `json:"race_reports"`
-	Samples       []any          `json:"samples"`
-	Findings      []Finding      `json:"findings"`
-	HarnessErr    string         `json:"harness_err"`
-	WallS         float64        `json:"wall_s"`
+	Runs          int               `json:"runs"`
+	Evals         int               `json:"evals"`
+	Discarded     int               `json:"discarded"`
+	Steps         int               `json:"steps"`
+	Execs         int               `json:"execs"`
+	Hashes        []uint64          `json:"hashes"`
+	HashesDropped int               `json:"hashes_dropped"`
+	Digests       map[string]uint64 `json:"digests,omitempty"`
+	ProgHashes    []uint64          `json:"prog_hashes"`
+	Faults        map[string]int    `json:"faults"`
+	Probes        map[string]int    `json:"probes"`
+	Porcupine     [3]int            `json:"porcupine"`
+	RaceRuns      int               `json:"race_runs"`
+	RaceReports   int               `json:"race_reports"`
+	Samples       []any             `json:"samples"`
+	Findings      []Finding         `json:"findings"`
+	HarnessErr    string            `json:"harness_err"`
+	WallS         float64           `json:"wall_s"`
 }
 
 func main() {
@@ -87,12 +93,12 @@ func main() {
 		os.Exit(2)
 	}
 	if os.Args[1] != "run" {
-		// one P and no background GC cycles: per-P pools and everything else the Go
-		// runtime keeps per processor behave the same way in every process, so state
-		// that survives between simulated runs replays too. Parallelism comes from
-		// running 16 worker processes.
+		// one P: per-P pools and everything else the Go runtime keeps per processor
+		// behave the same way in every process, so state that survives between
+		// simulated runs replays too (a replay process is short: no GC cycle empties a
+		// pool there). Parallelism comes from running 16 worker processes.
 		runtime.GOMAXPROCS(1)
-		debug.SetGCPercent(-1)
+		debug.SetGCPercent(200)
 	}
 	switch os.Args[1] {
 	case "run":
@@ -103,6 +109,10 @@ func main() {
 		os.Exit(code)
 	case "replay":
 		code := cmdReplay(os.Args[2:])
+		sim.CleanupCanary()
+		os.Exit(code)
+	case "digest":
+		code := cmdDigest(os.Args[2:])
 		sim.CleanupCanary()
 		os.Exit(code)
 	case "trace":
@@ -133,6 +143,8 @@ func cmdWorker(args []string) int {
 	count := fs.Int("count", 100, "max runs")
 	deadline := fs.Float64("deadline", 0, "stop after this many seconds (0: none)")
 	wid := fs.Int("wid", 0, "worker id")
+	auditM := fs.Uint64("audit", 0, "report run digests for indices below this")
+	desc := fs.Bool("desc", false, "run the indices from+ (count-1)*stride down to from (audit pass)")
 	fs.Parse(args)
 	c := sim.Get(*prop)
 	if c == nil {
@@ -156,6 +168,9 @@ func cmdWorker(args []string) int {
 			break
 		}
 		idx := *from + uint64(n)**stride
+		if *desc {
+			idx = *from + uint64(*count-1-n)**stride
+		}
 		seed := sim.MixSeed(*base, *prop, idx)
 		what = fmt.Sprintf("prop=%s base=%d index=%d", *prop, *base, idx)
 		wd := watchdog(120*time.Second, &what)
@@ -165,6 +180,12 @@ func cmdWorker(args []string) int {
 		o := sim.SafeRun(c, tp, ropt)
 		wd.Stop()
 		rep.Runs++
+		if idx < *auditM && len(o.Violations) == 0 && !o.Discarded {
+			if rep.Digests == nil {
+				rep.Digests = map[string]uint64{}
+			}
+			rep.Digests[fmt.Sprint(idx)] = o.Digest
+		}
 		if o.Evals > 0 {
 			rep.Evals += o.Evals
 		} else {
@@ -312,6 +333,9 @@ func cmdReplay(args []string) int {
 		fmt.Fprintln(os.Stderr, "unknown property", f.Property)
 		return 2
 	}
+	if len(f.OrderA) > 0 {
+		return replayOrder(&f, *quiet)
+	}
 	if f.Sequence != nil && (!f.Race || sim.RaceEnabled) {
 		return replaySequence(c, &f, *quiet)
 	}
@@ -401,6 +425,124 @@ func replaySequence(c sim.Checker, f *Finding, quiet bool) int {
 		}
 	}
 	fmt.Printf("NOT-REPRODUCED property=%s class=%s key=%q (sequence of %d runs)\n", f.Property, f.Class, f.Key, sq.Count)
+	return 0
+}
+
+// cmdDigest executes the given run indices in order in this process and prints the
+// digest of the last one.
+func cmdDigest(args []string) int {
+	fs := flag.NewFlagSet("digest", flag.ExitOnError)
+	prop := fs.String("prop", "", "property id")
+	base := fs.Uint64("seed", 1, "base seed")
+	list := fs.String("indices", "", "comma separated run indices")
+	fs.Parse(args)
+	c := sim.Get(*prop)
+	if c == nil {
+		return 2
+	}
+	var last *sim.Outcome
+	for _, t := range strings.Split(*list, ",") {
+		idx, err := strconv.ParseUint(strings.TrimSpace(t), 10, 64)
+		if err != nil {
+			return 2
+		}
+		what := fmt.Sprintf("digest %s index %d", *prop, idx)
+		wd := watchdog(120*time.Second, &what)
+		last = sim.SafeRun(c, sim.NewGenTapes(sim.MixSeed(*base, *prop, idx)), sim.RunOpt{})
+		wd.Stop()
+	}
+	if last == nil || last.HarnessErr != "" {
+		return 2
+	}
+	fmt.Printf("DIGEST %d violations=%d\n", last.Digest, len(last.Violations))
+	return 0
+}
+
+func digestOf(bin, prop string, base uint64, indices []uint64) (uint64, bool) {
+	var parts []string
+	for _, i := range indices {
+		parts = append(parts, fmt.Sprint(i))
+	}
+	out, err := exec.Command(bin, "digest", "-prop", prop, "-seed", fmt.Sprint(base), "-indices", strings.Join(parts, ",")).Output()
+	if err != nil {
+		return 0, false
+	}
+	var d uint64
+	var v int
+	for _, ln := range strings.Split(string(out), "\n") {
+		if _, err := fmt.Sscanf(ln, "DIGEST %d violations=%d", &d, &v); err == nil {
+			return d, true
+		}
+	}
+	return 0, false
+}
+
+// minimiseOrder shrinks two index sequences (both ending in run i) whose final digests
+// differ. Each candidate is executed in a fresh process.
+func minimiseOrder(bin, prop string, base uint64, i uint64, seqA, seqB []uint64) ([]uint64, []uint64, bool) {
+	budget := 120
+	dig := func(s []uint64) (uint64, bool) {
+		if budget <= 0 {
+			return 0, false
+		}
+		budget--
+		return digestOf(bin, prop, base, s)
+	}
+	da, okA := dig(seqA)
+	db, okB := dig(seqB)
+	if !okA || !okB || da == db {
+		return nil, nil, false
+	}
+	d0, ok0 := dig([]uint64{i})
+	if !ok0 {
+		return seqA, seqB, true
+	}
+	// keep one side as the run alone, shrink the side that differs from it
+	alone := []uint64{i}
+	other, dOther := seqB, db
+	if db == d0 {
+		other, dOther = seqA, da
+	}
+	if dOther == d0 {
+		return seqA, seqB, true // both differ from each other but one equals "alone": keep as is
+	}
+	cur := other
+	// shortest suffix that still differs from the run alone
+	for w := 2; w < len(cur); w = w*2 - 1 {
+		cand := cur[len(cur)-w:]
+		if d, ok := dig(cand); ok && d != d0 {
+			cur = cand
+			break
+		}
+	}
+	// drop earlier runs one at a time
+	for k := 0; k < len(cur)-1 && budget > 0; {
+		cand := append(append([]uint64{}, cur[:k]...), cur[k+1:]...)
+		if d, ok := dig(cand); ok && d != d0 {
+			cur = cand
+		} else {
+			k++
+		}
+	}
+	return alone, cur, true
+}
+
+func replayOrder(f *Finding, quiet bool) int {
+	self, _ := os.Executable()
+	da, okA := digestOf(self, f.Property, f.OrderBase, f.OrderA)
+	db, okB := digestOf(self, f.Property, f.OrderBase, f.OrderB)
+	if !okA || !okB {
+		fmt.Fprintln(os.Stderr, "HARNESS ERROR: digest process failed")
+		return 2
+	}
+	if !quiet {
+		fmt.Printf("sequence A %v -> digest %d\nsequence B %v -> digest %d\n", f.OrderA, da, f.OrderB, db)
+	}
+	if da != db {
+		fmt.Printf("REPRODUCED property=%s class=%s key=%q (the final run's observable results depend on what the process executed before)\n", f.Property, f.Class, f.Key)
+		return 1
+	}
+	fmt.Printf("NOT-REPRODUCED property=%s class=%s key=%q\n", f.Property, f.Class, f.Key)
 	return 0
 }
 
@@ -530,7 +672,9 @@ func cmdRun(args []string) int {
 		from   uint64
 		stride uint64
 		count  int
+		audit  bool
 	}
+	const auditM = 192 // run indices whose results are cross-checked against a differently ordered pass
 	var batches [][]job
 	mk := func(bin string, race bool, total, nw, widBase int) []job {
 		var js []job
@@ -568,6 +712,15 @@ func cmdRun(args []string) int {
 		}
 	}
 
+	if len(batches) > 0 && plainRuns >= auditM {
+		// order-independence audit: one more process executes the first auditM runs in
+		// descending order; every run must yield the same observable results there
+		batches[0] = append(batches[0], job{bin: self, wid: 99, from: 0, stride: 1, count: auditM, audit: true})
+	}
+	unconfirmedOrder := ""
+	fwdDigest := map[uint64]uint64{}
+	fwdSlice := map[uint64][2]uint64{} // index -> (from, stride) of the worker that ran it
+	audDigest := map[uint64]uint64{}
 	total := &WorkerReport{Faults: map[string]int{}, Probes: map[string]int{}}
 	var findings []Finding
 	harness := ""
@@ -579,8 +732,14 @@ func cmdRun(args []string) int {
 			go func(j job) {
 				defer wg.Done()
 				a := []string{"worker", "-prop", *prop, "-seed", fmt.Sprint(baseSeed), "-from", fmt.Sprint(j.from), "-stride", fmt.Sprint(j.stride), "-count", fmt.Sprint(j.count), "-wid", fmt.Sprint(j.wid)}
-				if deadline > 0 {
+				if deadline > 0 && !j.audit {
 					a = append(a, "-deadline", fmt.Sprint(deadline))
+				}
+				if !j.race {
+					a = append(a, "-audit", fmt.Sprint(auditM))
+				}
+				if j.audit {
+					a = append(a, "-desc")
 				}
 				cmd := exec.Command(j.bin, a...)
 				cmd.Env = append(os.Environ(), "GOMEMLIMIT=2GiB")
@@ -603,6 +762,23 @@ func cmdRun(args []string) int {
 				if len(lines) == 0 || json.Unmarshal([]byte(lines[len(lines)-1]), &wr) != nil {
 					harness += fmt.Sprintf("worker %d produced no report: %s\n", j.wid, tail(se.String(), 2000))
 					return
+				}
+				if j.audit {
+					for k, d := range wr.Digests {
+						i, _ := strconv.ParseUint(k, 10, 64)
+						audDigest[i] = d
+					}
+					if wr.HarnessErr != "" {
+						harness += wr.HarnessErr + "\n"
+					}
+					return // the audit pass repeats runs already counted
+				}
+				if !j.race {
+					for k, d := range wr.Digests {
+						i, _ := strconv.ParseUint(k, 10, 64)
+						fwdDigest[i] = d
+						fwdSlice[i] = [2]uint64{j.from, j.stride}
+					}
 				}
 				total.Runs += wr.Runs
 				total.Evals += wr.Evals
@@ -639,6 +815,48 @@ func cmdRun(args []string) int {
 		}
 		wg.Wait()
 	}
+	// ---- order-independence: the same run must yield the same results in both passes ------
+	orderChecked := 0
+	var orderIdx []uint64
+	for i := range audDigest {
+		orderIdx = append(orderIdx, i)
+	}
+	sort.Slice(orderIdx, func(a, b int) bool { return orderIdx[a] < orderIdx[b] })
+	for _, i := range orderIdx {
+		fd, ok := fwdDigest[i]
+		if !ok {
+			continue
+		}
+		orderChecked++
+		if fd == audDigest[i] {
+			continue
+		}
+		// sequences as executed: forward worker slice up to i, audit pass down to i
+		sl := fwdSlice[i]
+		var seqA, seqB []uint64
+		for x := sl[0]; x <= i; x += sl[1] {
+			seqA = append(seqA, x)
+		}
+		for x := uint64(auditM - 1); ; x-- {
+			seqB = append(seqB, x)
+			if x == i {
+				break
+			}
+		}
+		a, b, okm := minimiseOrder(self, *prop, baseSeed, i, seqA, seqB)
+		if !okm {
+			unconfirmedOrder += fmt.Sprintf("run %d gave different results in the two passes but the difference did not reproduce in fresh processes\n", i)
+			continue
+		}
+		f := Finding{Property: *prop, Class: "run_order_dependence", Key: "results depend on earlier runs in the process", RunIndex: i, Seed: sim.MixSeed(baseSeed, *prop, i),
+			Detail: fmt.Sprintf("run %d yields different observable results depending on which runs the process executed before it: the engine keeps state outside the template set / compiled template", i),
+			OrderA: a, OrderB: b, OrderBase: baseSeed}
+		f.Path = filepath.Join(verifDir, "replays", fmt.Sprintf("%s-run_order_dependence-%d.json", *prop, i))
+		bb, _ := json.MarshalIndent(f, "", " ")
+		os.WriteFile(f.Path, bb, 0o644)
+		findings = append(findings, f)
+		break // one is enough: they share the cause
+	}
 	wall := time.Since(start).Seconds()
 
 	// ---- classify findings -------------------------------------------------------
@@ -656,7 +874,7 @@ func cmdRun(args []string) int {
 	})
 	reported := map[string]bool{}
 	violations := 0
-	unconfirmed := ""
+	unconfirmed := unconfirmedOrder
 	knownHit := map[int]bool{}
 	for _, f := range findings {
 		id := f.Class + "|" + f.Key
@@ -718,12 +936,11 @@ func cmdRun(args []string) int {
 			// of the same worker process left behind inside the engine. Re-execute growing
 			// windows of that worker's slice, ending with the violating run, in a fresh process.
 			nBefore := int((f.RunIndex - f.SliceFrom) / f.SliceStride)
-			for _, w := range []int{2, 4, 16, 64, 256, 1 << 30} {
+			// (a window of 1 is the original, unminimised run: minimisation itself may have
+			// relied on state the worker process had accumulated by then)
+			for _, w := range []int{1, 2, 4, 16, 64, 256, 1 << 30} {
 				if w-1 > nBefore {
 					w = nBefore + 1
-				}
-				if w < 2 {
-					break
 				}
 				sf := f
 				sf.Tapes = sim.TapeVals{}
